@@ -2,14 +2,17 @@
 
 spec:    specs/Scalars.tla defines the lexical <-> value mappings of the BICEPS scalar types over an abstract domain
          (naturals as digit sequences, decimals as sign/coefficient/exponent, durations as (sec, ns), date/time
-         records, lexical probes as character sequences) and the laws of the reference (INVARIANT Law).  One TLC run
-         per sub-domain (Part = ts | dec | dur | dt | lex) visits every case and prints it.
+         records, lexical probes as character sequences) and the laws of the reference (INVARIANT Law).  TLC visits
+         every case of the sub-domains (Part = ts | dec | dur | dt | lex; one run for all in the quick tier, one run
+         per part in parallel in the thorough tier) and prints it.
 binding: spec -> code: every printed case is concretised into calls of the real converters
          (sdc11073.xml_types.dataconverters, isoduration) and of the attribute / node-text properties of
          xml_structure.py that wrap them; the raw results (lexical results as character lists, python values as exact
          digit sequences / (sec, ns) pairs) are recorded.
          code -> spec: specs/ScalarsTrace.tla (TLC) judges every record with the operators of Scalars.tla: it parses
          the lexical results itself and names the failing clause.
+         Hand-made canary records (good and bad twins per clause) are judged in the same TLC runs; a canary that
+         is not judged as intended is a machinery failure (guards against a vacuous judge).
 measured in python (exact rational arithmetic, no tolerance): the distance |to_py(to_xml(x)) - x| for python floats
          (floor / ceil to whole nanoseconds); IEEE-754 values cannot be represented in TLC.  TLC compares the measured
          distance with the bound of the statement.
@@ -30,6 +33,7 @@ from verif.tlc import SPEC_DIR, MachineryError, json_lines, run_tlc
 PARTS = ('ts', 'dec', 'dur', 'dt', 'lex')
 CAP = 2_000_000_000
 BATCH = 250  # records per "trace" given to TLC
+JUDGE_WORKERS = 4  # TLC processes judging in parallel
 
 
 # ------------------------------------------------------------------------------------------ abstraction helpers
@@ -188,7 +192,7 @@ class Real:
     def to_xml(self, tg: str, py_value) -> str:
         kind, name = tg.split(':', 1)
         if kind == 'conv':
-            return getattr(self.dc, name).to_xml(py_value)
+            return self.converter_of(tg).to_xml(py_value)
         if kind == 'func':
             return str(py_value)
         prop = getattr(self.Probe, name)
@@ -335,9 +339,16 @@ def drive(real: Real, item: dict, tg: str) -> dict:
         except Exception as ex:  # noqa: BLE001
             return {'st': 'raise', 'exc': type(ex).__name__}
         try:
-            return {'st': 'value', 'v': _lex_abs(c['ty'], v), 'exc': repr(v)[:60]}
+            a = {'st': 'value', 'v': _lex_abs(c['ty'], v), 'exc': repr(v)[:60]}
         except Exception:  # noqa: BLE001
-            return {'st': 'value', 'v': _lex_abs_fallback(c['ty']), 'exc': repr(v)[:60]}
+            a = {'st': 'value', 'v': _lex_abs_fallback(c['ty']), 'exc': repr(v)[:60]}
+        try:  # and back (judged for literals the specification accepts)
+            a['xml'] = _chars(real.to_xml(tg, v))
+            a['xst'] = 'ok'
+        except Exception as ex:  # noqa: BLE001
+            a['xml'] = []
+            a['xst'] = f'exc:{type(ex).__name__}'
+        return a
     raise MachineryError(f'unknown case kind {k}')
 
 
@@ -394,12 +405,16 @@ def _lex_abs(ty: str, v) -> dict:
 
 # ------------------------------------------------------------------------------------------ TLC runs
 def _write_cfg(name: str, part: str, sizes: dict) -> str:
+    """cfg of one enumeration run; the size constants of the other parts are 0 (TLC evaluates all constant sets)."""
+    def size(key, owner):
+        return sizes[key] if part in (owner, 'all') else 0
+
     path = os.path.join(SPEC_DIR, f'_gen_c18_{name}.cfg')
     with open(path, 'w') as f:
         f.write('SPECIFICATION Spec\nCONSTANTS\n'
                 f'  Part = "{part}"\n  Big = {"TRUE" if sizes["big"] else "FALSE"}\n'
-                f'  TsDense = {sizes["ts_dense"]}\n  TsWin = {sizes["ts_win"]}\n'
-                f'  Ts2Dense = {sizes["ts2_dense"]}\n  DecCoMax = {sizes["dec_co_max"]}\n'
+                f'  TsDense = {size("ts_dense", "ts")}\n  TsWin = {size("ts_win", "ts")}\n'
+                f'  Ts2Dense = {size("ts2_dense", "ts")}\n  DecCoMax = {size("dec_co_max", "dec")}\n'
                 'INVARIANT Law\nINVARIANT Emit\n')
     return os.path.basename(path)
 
@@ -438,7 +453,8 @@ def emit_cases(run, sizes: dict) -> dict[str, list]:
         except Exception as ex:  # noqa: BLE001
             errors.append(ex)
 
-    threads = [threading.Thread(target=one, args=(p,)) for p in PARTS]
+    parts = PARTS if sizes['parallel_parts'] else ('all',)
+    threads = [threading.Thread(target=one, args=(p,)) for p in parts]
     for t in threads:
         t.start()
     for t in threads:
@@ -448,13 +464,19 @@ def emit_cases(run, sizes: dict) -> dict[str, list]:
             os.remove(os.path.join(SPEC_DIR, name))
     if errors:
         raise errors[0] if isinstance(errors[0], MachineryError) else MachineryError(repr(errors[0]))
-    cases = {}
-    for part in PARTS:
+    cases: dict[str, list] = {p: [] for p in PARTS}
+    part_of_kind = {'ts1': 'ts', 'ts2': 'ts', 'dpy': 'dec', 'dxml': 'dec', 'durxml': 'dur', 'durpy': 'dur',
+                    'dtxml': 'dt', 'dtpy': 'dt', 'lex': 'lex'}
+    for part in parts:
         res = run.add_tlc(results[part])
         got = json_lines(res.stdout, 'CASE')
         if len(got) != res.distinct or not got:
             raise MachineryError(f'Scalars/{part}: {res.distinct} states but {len(got)} cases printed')
-        cases[part] = got
+        for item in got:
+            cases[part_of_kind[item['c']['k']]].append(item)
+    for part in PARTS:
+        if not cases[part]:
+            raise MachineryError(f'Scalars: no case of part {part} was enumerated')
     return cases
 
 
@@ -547,6 +569,8 @@ def _canaries() -> list[tuple[dict, str | None]]:
     lex_w = {'k': 'lex', 'ty': 'integer', 'base': ['7'], 'd': 'ws_lead'}
     lex_m = {'k': 'lex', 'ty': 'unsignedLong', 'base': ['7'], 'd': 'minus'}
     lex_e = {'k': 'lex', 'ty': 'decimal', 'base': list('1.5'), 'd': 'exp_E'}
+    lex_d = {'k': 'lex', 'ty': 'duration', 'base': list('PT1H2M3S'), 'd': 'plain'}
+    lex_n = {'k': 'lex', 'ty': 'enum:MetricCategory', 'base': list('Msrmt'), 'd': 'plain'}
     iv = {'neg': False, 'm': [7]}
     return [
         ({'c': ts1, 'a': {'st': 'ok', 'xml': list('1001')}}, None),
@@ -587,35 +611,43 @@ def _canaries() -> list[tuple[dict, str | None]]:
          'dt_to_xml_value'),
         ({'c': lex_t, 'a': {'st': 'raise', 'exc': 'ValueError'}}, None),
         ({'c': lex_t, 'a': {'st': 'value', 'v': {'b': False}}}, 'lex_reject'),
-        ({'c': lex_p, 'a': {'st': 'value', 'v': {'b': True}}}, None),
+        ({'c': lex_p, 'a': {'st': 'value', 'v': {'b': True}, 'xst': 'ok', 'xml': list('1')}}, None),
         ({'c': lex_p, 'a': {'st': 'raise', 'exc': 'ValueError'}}, 'lex_accept'),
-        ({'c': lex_p, 'a': {'st': 'value', 'v': {'b': False}}}, 'lex_value'),
+        ({'c': lex_p, 'a': {'st': 'value', 'v': {'b': False}, 'xst': 'ok', 'xml': list('true')}}, 'lex_value'),
+        ({'c': lex_p, 'a': {'st': 'value', 'v': {'b': True}, 'xst': 'ok', 'xml': list('false')}}, 'lex_xml_py_xml'),
+        ({'c': lex_p, 'a': {'st': 'value', 'v': {'b': True}, 'xst': 'ok', 'xml': list('True')}}, 'lex_xml_py_xml'),
+        ({'c': lex_p, 'a': {'st': 'value', 'v': {'b': True}, 'xst': 'exc:TypeError', 'xml': []}}, 'lex_xml_py_xml'),
         ({'c': lex_w, 'a': {'st': 'raise', 'exc': 'ValueError'}}, None),
-        ({'c': lex_w, 'a': {'st': 'value', 'v': iv}}, None),
-        ({'c': lex_w, 'a': {'st': 'value', 'v': {'neg': True, 'm': [7]}}}, 'lex_value'),
+        ({'c': lex_w, 'a': {'st': 'value', 'v': iv, 'xst': 'ok', 'xml': list('7')}}, None),
+        ({'c': lex_w, 'a': {'st': 'value', 'v': iv, 'xst': 'ok', 'xml': list('007')}}, None),
+        ({'c': lex_w, 'a': {'st': 'value', 'v': iv, 'xst': 'ok', 'xml': list('7.0')}}, 'lex_xml_py_xml'),
+        ({'c': lex_w, 'a': {'st': 'value', 'v': {'neg': True, 'm': [7]}, 'xst': 'ok', 'xml': list('7')}}, 'lex_value'),
+        ({'c': lex_d, 'a': {'st': 'value', 'v': {'sec': 3723, 'ns': 0}, 'xst': 'ok', 'xml': list('PT62M3S')}}, None),
+        ({'c': lex_d, 'a': {'st': 'value', 'v': {'sec': 3723, 'ns': 0}, 'xst': 'ok', 'xml': list('PT1H2M4S')}},
+         'lex_xml_py_xml'),
+        ({'c': lex_n, 'a': {'st': 'value', 'v': {'lit': list('Msrmt')}, 'xst': 'ok', 'xml': list('Msrmt')}}, None),
+        ({'c': lex_n, 'a': {'st': 'value', 'v': {'lit': list('Msrmt')}, 'xst': 'ok', 'xml': list('Clc')}},
+         'lex_xml_py_xml'),
+        ({'c': lex_n, 'a': {'st': 'value', 'v': {'lit': list('Clc')}, 'xst': 'ok', 'xml': list('Msrmt')}}, 'lex_value'),
         ({'c': lex_m, 'a': {'st': 'value', 'v': {'neg': True, 'm': [7]}}}, 'lex_reject'),
         ({'c': lex_e, 'a': {'st': 'value', 'v': dec(False, [1, 5], 2)}}, 'lex_reject'),
         ({'c': lex_e, 'a': {'st': 'raise', 'exc': 'InvalidOperation'}}, None),
     ]
 
 
-def check_canaries(run):
-    can = _canaries()
-    records = [{'c': r['c'], 'tg': 'canary', 'a': r['a']} for r, _ in can]
-    got = judge(run, records)
-    bad = [(i, can[i][1], got.get(i)) for i in range(len(can)) if got.get(i) != can[i][1]]
+def check_canaries(can: list, got: dict[int, str], offset: int):
+    bad = [(i, can[i][1], got.get(offset + i)) for i in range(len(can)) if got.get(offset + i) != can[i][1]]
     if bad:
         raise MachineryError(f'ScalarsTrace does not judge the canary records as intended (index, expected, got): {bad}')
-    run.note('canary_records', len(can))
 
 
 # ------------------------------------------------------------------------------------------ check
 def _sizes(run) -> dict:
     return run.pick(
-        {'big': False, 'ts_dense': 12000, 'ts_win': 400, 'ts2_dense': 1500, 'dec_co_max': 99, 'ts_samples': 150,
-         'dec_samples': 20, 'prop_stride': 5},
+        {'big': False, 'ts_dense': 5000, 'ts_win': 200, 'ts2_dense': 600, 'dec_co_max': 29, 'ts_samples': 80,
+         'dec_samples': 12, 'prop_stride': 5, 'parallel_parts': False},
         {'big': True, 'ts_dense': 200000, 'ts_win': 10000, 'ts2_dense': 30000, 'dec_co_max': 999, 'ts_samples': 3000,
-         'dec_samples': 400, 'prop_stride': 7})
+         'dec_samples': 400, 'prop_stride': 7, 'parallel_parts': True})
 
 
 def build_records(real: Real, cases: dict[str, list], stride: int) -> list[dict]:
@@ -641,25 +673,56 @@ def build_records(real: Real, cases: dict[str, list], stride: int) -> list[dict]
     return records
 
 
+class _Slice:
+    """What tracecheck.validate needs of a Run, with a private scratch directory (parallel validation)."""
+
+    def __init__(self, run, i: int):
+        self.tmp = os.path.join(run.tmp, f'judge{i}')
+        os.makedirs(self.tmp, exist_ok=True)
+        self.tlc: list = []
+        self.traces_validated = 0
+
+
 def judge(run, records: list[dict]) -> dict[int, str]:
-    """Let TLC judge all records; return {record index: first failing clause}."""
+    """Let TLC judge all records (ScalarsTrace.tla); return {record index: first failing clause}."""
     hdr = {'c': {'k': 'hdr'}, 'tg': '-', 'a': {'st': 'ok'}}
     traces = []
     for start in range(0, len(records), BATCH):
         traces.append([hdr] + [{'c': r['c'], 'tg': r['tg'], 'a': r['a']} for r in records[start:start + BATCH]])
-    rejects = tracecheck.validate(run, 'ScalarsTrace', 'ScalarsTrace.cfg', traces, chunk=run.pick(200, 400),
-                                  timeout=840)
+    chunk = run.pick(100, 400)
+    workers = max(1, min(JUDGE_WORKERS, -(-len(traces) // chunk)))
+    per = -(-len(traces) // workers)
+    slices = [_Slice(run, i) for i in range(workers)]
+    out: list = [None] * workers
+    errors: list = []
+
+    def one(i):
+        try:
+            out[i] = tracecheck.validate(slices[i], 'ScalarsTrace', 'ScalarsTrace.cfg', traces[i * per:(i + 1) * per],
+                                         chunk=chunk, timeout=840)
+        except Exception as ex:  # noqa: BLE001
+            errors.append(ex)
+
+    threads = [threading.Thread(target=one, args=(i,)) for i in range(workers)]
+    for t in threads:
+        t.start()
+    for t in threads:
+        t.join()
+    if errors:
+        raise errors[0] if isinstance(errors[0], MachineryError) else MachineryError(repr(errors[0]))
     first: dict[int, str] = {}
-    for ti, li, clause in rejects:
-        idx = ti * BATCH + li - 1
-        if li < 1 or idx >= len(records):
-            raise MachineryError(f'REJECT for a record that does not exist: trace {ti} record {li}')
-        first.setdefault(idx, clause)
-    run.traces_validated = len(records)
+    for i in range(workers):
+        run.tlc.extend(slices[i].tlc)
+        for ti, li, clause in out[i]:
+            idx = (i * per + ti) * BATCH + li - 1
+            if li < 1 or idx >= len(records):
+                raise MachineryError(f'REJECT for a record that does not exist: trace {i * per + ti} record {li}')
+            first.setdefault(idx, clause)
+    run.traces_validated += len(records)
     return first
 
 
-def report(run, real: Real, records: list[dict], failing: dict[int, str]):
+def report(run, real: Real, records: list[dict], failing: dict[int, str], keep_replay: bool = True):
     # a failure of a wrapping property that the converter shows as well is the converter's
     conv_fail = {}
     for idx, clause in failing.items():
@@ -688,7 +751,7 @@ def report(run, real: Real, records: list[dict], failing: dict[int, str]):
             what += f' (specification expects: {r.get("x")})'
         key = f'{descr["part"]}/{clause}/{descr["class"]}'
         stats[key] = stats.get(key, 0) + 1
-        run.violation(descr, what, {'case': c, 'lexical': ''.join(r['lex']), 'python_input': r['py_in'],
+        run.violation(descr, what, None if not keep_replay else {'case': c, 'lexical': ''.join(r['lex']), 'python_input': r['py_in'],
                                     'target': r['tg'], 'actual': r['a'], 'clause': clause,
                                     'how': 'drive(Real(), {"c": case, "lex": list(lexical), "x": "-"}, target) in '
                                            'verif/checks/c18.py, judged by specs/ScalarsTrace.tla'})
@@ -704,9 +767,8 @@ def check(run, replay_path=None):
         records = [{'c': item['c'], 'tg': rep['target'], 'a': drive(real, item, rep['target']), 'lex': item['lex']}]
         failing = judge(run, records)
         print(f'replay {replay_path}: actual={_actual_text(records[0]["a"])} failing clause={failing.get(0)}')
-        report(run, real, records, failing)
+        report(run, real, records, failing, keep_replay=False)
         return
-    check_canaries(run)
     sizes = _sizes(run)
     cases = emit_cases(run, sizes)
     run.note('cases_per_part', {p: len(v) for p, v in cases.items()})
@@ -721,7 +783,11 @@ def check(run, replay_path=None):
     for k in ('ts1', 'dpy', 'lex'):
         r = next(x for x in records if x['c']['k'] == k)
         run.sample({'case': r['c'], 'target': r['tg'], 'actual': _actual_text(r['a'])})
-    failing = judge(run, records)
+    can = _canaries()
+    failing = judge(run, records + [{'c': r['c'], 'tg': 'canary', 'a': r['a']} for r, _ in can])
+    check_canaries(can, failing, len(records))
+    run.note('canary_records', len(can))
+    failing = {i: cl for i, cl in failing.items() if i < len(records)}
     report(run, real, records, failing)
     # informative: decimals of the quantified domain outside xsd totalDigits=18 whose value to_xml changes (not judged)
     changed = 0
